@@ -218,6 +218,13 @@ func init() {
 				defer pw.Done()
 				defer func() { recover() }()
 				<-pgate
+				if cold, okc := coldReaders[a.Str("fn")]; okc && a.Bool("bare") {
+					// the library's parser and nothing else: no method of the shared value has run when the goroutines get it
+					// (a write that only the FIRST serialisation makes is otherwise over before anything is shared)
+					val, perr := cold(append([]byte{}, in...))
+					parsed[g] = ReadOut{OK: val != nil && (perr == nil || a.Bool("recovered")), Val: val, Err: errStr(perr)}
+					return
+				}
 				parsed[g] = rd(append([]byte{}, in...), a)
 			}(g)
 		}
